@@ -337,8 +337,6 @@ def check_history(events: list, table: dict[str, list], thread_inherits: bool = 
                 return bad(ref.classify(ctx, 'U', d['obs'], exp), seq, {'site': 'apply:active-changed', 'diff': diff(d['obs'], exp)})
         elif kind == 'bad':
             exp = ref.top(ctx)
-            if d['raised'] != 'TypeError':
-                return bad('N', seq, {'site': 'badconfig', 'raised': d['raised']})
             if d['obs'] != exp:
                 return bad(ref.classify(ctx, 'N', d['obs'], exp), seq, {'site': 'badconfig', 'diff': diff(d['obs'], exp)})
         elif kind == 'noenter':
